@@ -600,7 +600,7 @@ def isin_strategy(
     :returns: ``hypothesis`` strategy
     """
     if strategy is None:
-        return pandas_dtype_strategy(
+        strategy = pandas_dtype_strategy(
             pandera_dtype, st.sampled_from(allowed_values)
         )
     return strategy.filter(lambda x: x in allowed_values)
